@@ -1239,3 +1239,149 @@ pub fn bytecode_accessors() -> String {
     }
     out
 }
+
+// ---------------------------------------------------------------- SELFDESTRUCT notifications seen by an inspector
+#[derive(Default)]
+pub struct SdInspector {
+    pub notes: Vec<(Address, Address, U256)>,
+}
+impl<DB: revm::Database> revm::Inspector<DB> for SdInspector {
+    fn selfdestruct(&mut self, contract: Address, target: Address, value: U256) {
+        self.notes.push((contract, target, value));
+    }
+}
+
+/// Runs `code` at TARGET (balance 1000, called by CALLER) under `spec` with an inspector and returns the notifications.
+fn sd_run(spec: SpecId, code: Vec<u8>) -> (Vec<(Address, Address, U256)>, bool) {
+    use revm::primitives::TxKind;
+    use revm::{inspector_handle_register, Evm};
+    let bc = Bytecode::new_legacy(Bytes::from(code));
+    let mut db = CacheDB::new(EmptyDB::default());
+    db.insert_account_info(CALLER, AccountInfo { nonce: 0, balance: U256::from(1_000_000_000u64), code_hash: B256::default(), code: None });
+    db.insert_account_info(TARGET, AccountInfo { nonce: 1, balance: U256::from(1000), code_hash: bc.hash_slow(), code: Some(bc) });
+    let mut evm = Evm::builder()
+        .with_db(db)
+        .with_external_context(SdInspector::default())
+        .with_spec_id(spec)
+        .modify_tx_env(|tx| {
+            tx.caller = CALLER;
+            tx.transact_to = TxKind::Call(TARGET);
+            tx.gas_limit = 500_000;
+        })
+        .append_handler_register(inspector_handle_register)
+        .build();
+    let r = evm.transact();
+    let ok = matches!(&r, Ok(rs) if rs.result.is_success());
+    (evm.context.external.notes.clone(), ok)
+}
+
+pub fn selfdestruct_notify() -> String {
+    let mut out = String::new();
+    let eoa = address!("00000000000000000000000000000000000000e0");
+    let ben = address!("00000000000000000000000000000000000000be");
+    // PUSH1 0 x4, PUSH1 7 (value), PUSH20 eoa, GAS, CALL, POP
+    let mut value_call: Vec<u8> = vec![0x60, 0, 0x60, 0, 0x60, 0, 0x60, 0, 0x60, 7, 0x73];
+    value_call.extend_from_slice(eoa.as_slice());
+    value_call.extend_from_slice(&[0x5a, 0xf1, 0x50]);
+    let push20 = |a: Address| {
+        let mut v = vec![0x73];
+        v.extend_from_slice(a.as_slice());
+        v
+    };
+    let show = |n: &Vec<(Address, Address, U256)>| n.iter().map(|(c, t, v)| format!("({},{},{})", &format!("{c:?}")[38..], &format!("{t:?}")[38..], v)).collect::<Vec<_>>().join(";");
+    // (a) a value transfer by CALL, then a SELFDESTRUCT that fails (empty stack): nothing may be reported
+    let mut code = value_call.clone();
+    code.push(0xff);
+    let (n, ok) = sd_run(SpecId::CANCUN, code);
+    out += &format!("[selfdestruct-wrapper failed selfdestruct after a value call tx_ok={} notes={} {}{}] ", ok, n.len(), show(&n), if n.is_empty() { "" } else { " MISMATCH" });
+    // (b) ordinary SELFDESTRUCT to another address (Cancun, contract not created in this transaction: balance moves, account stays)
+    let mut code = push20(ben);
+    code.push(0xff);
+    let (n, ok) = sd_run(SpecId::CANCUN, code);
+    out += &format!("[selfdestruct-wrapper to beneficiary (Cancun) tx_ok={} notes={} {}{}] ", ok, n.len(), show(&n), if n == vec![(TARGET, ben, U256::from(1000))] { "" } else { " MISMATCH" });
+    let mut code = push20(ben);
+    code.push(0xff);
+    let (n, ok) = sd_run(SpecId::SHANGHAI, code);
+    out += &format!("[selfdestruct-wrapper to beneficiary (Shanghai) tx_ok={} notes={} {}{}] ", ok, n.len(), show(&n), if n == vec![(TARGET, ben, U256::from(1000))] { "" } else { " MISMATCH" });
+    // (c) Cancun, beneficiary = the contract itself, after a value call: the self-destruct completes without moving anything
+    let mut code = value_call.clone();
+    code.extend(push20(TARGET));
+    code.push(0xff);
+    let (n, ok) = sd_run(SpecId::CANCUN, code);
+    out += &format!("[selfdestruct-wrapper to itself after a value call (Cancun) tx_ok={} notes={} {}{}] ", ok, n.len(), show(&n), if n == vec![(TARGET, TARGET, U256::ZERO)] { "" } else { " MISMATCH" });
+    // (d) before Cancun, beneficiary = the contract itself: the balance is burnt
+    let mut code = push20(TARGET);
+    code.push(0xff);
+    let (n, ok) = sd_run(SpecId::SHANGHAI, code);
+    out += &format!("[selfdestruct-wrapper to itself (Shanghai) tx_ok={} notes={} {}{}] ", ok, n.len(), show(&n), if n == vec![(TARGET, TARGET, U256::from(1000))] { "" } else { " MISMATCH" });
+    // (e) no SELFDESTRUCT at all, only the value call
+    let (n, ok) = sd_run(SpecId::CANCUN, value_call.clone());
+    out += &format!("[selfdestruct-wrapper no selfdestruct tx_ok={} notes={}{}] ", ok, n.len(), if n.is_empty() { "" } else { " MISMATCH" });
+    out
+}
+
+// ---------------------------------------------------------------- an inspector that only observes does not change execution (differential on a few programs)
+pub fn inspector_transparency() -> String {
+    use revm::primitives::TxKind;
+    use revm::{inspector_handle_register, Evm};
+    // program 1: calls (precompile, empty account), a create, storage writes, a log, a loop with a backward jump and PUSH immediates
+    let prog1: Vec<u8> = vec![
+        0x60, 0, 0x60, 0, 0x60, 0, 0x60, 0, 0x60, 0, 0x60, 4, 0x5a, 0xf1, 0x50, // CALL identity
+        0x60, 0, 0x60, 0, 0x60, 0, 0x60, 0, 0x60, 3, 0x61, 0x99, 0x99, 0x5a, 0xf1, 0x50, // CALL 0x9999 with value 3
+        0x60, 0, 0x60, 0, 0x60, 0, 0xf0, 0x50, // CREATE (empty init code)
+        0x61, 0x12, 0x34, 0x60, 1, 0x55, // SSTORE(1, 0x1234)
+        0x60, 0x2a, 0x60, 0, 0x52, 0x60, 0x20, 0x60, 0, 0xa0, // MSTORE; LOG0
+        0x60, 3, // counter = 3
+        0x5b, 0x60, 1, 0x90, 0x03, 0x80, 0x60, 0x39, 0x57, // JUMPDEST; PUSH1 1; SWAP1; SUB; DUP1; PUSH1 <dest>; JUMPI
+        0x50, 0x60, 0x20, 0x60, 0, 0xf3, // POP; RETURN(0, 32)
+    ];
+    // program 2: reverts after a storage write
+    let prog2: Vec<u8> = vec![0x60, 7, 0x60, 2, 0x55, 0x60, 0, 0x60, 0, 0xfd];
+    // program 3: runs out of gas in a loop
+    let prog3: Vec<u8> = vec![0x5b, 0x60, 0, 0x56];
+    let run = |code: &Vec<u8>, with_inspector: bool, gas: u64| -> String {
+        let mut db = CacheDB::new(EmptyDB::default());
+        db.insert_account_info(CALLER, AccountInfo { nonce: 0, balance: U256::from(1_000_000_000u64), code_hash: B256::default(), code: None });
+        let bc = Bytecode::new_legacy(Bytes::from(code.clone()));
+        db.insert_account_info(TARGET, AccountInfo { nonce: 1, balance: U256::from(100), code_hash: bc.hash_slow(), code: Some(bc) });
+        let describe = |r: Result<revm::primitives::ResultAndState, String>| match r {
+            Ok(rs) => {
+                let mut st: Vec<String> = rs.state.iter().map(|(a, acc)| {
+                    let mut slots: Vec<String> = acc.storage.iter().map(|(k, v)| format!("{k}={}", v.present_value)).collect();
+                    slots.sort();
+                    format!("{a:?}:{}:{}:{:?}:{}", acc.info.balance, acc.info.nonce, acc.status, slots.join(","))
+                }).collect();
+                st.sort();
+                format!("{:?} | {}", rs.result, st.join(" ; "))
+            }
+            Err(e) => format!("error {e}"),
+        };
+        if with_inspector {
+            let mut evm = Evm::builder().with_db(db).with_external_context(CountingInspector::default()).with_spec_id(SpecId::CANCUN)
+                .modify_tx_env(|tx| { tx.caller = CALLER; tx.transact_to = TxKind::Call(TARGET); tx.gas_limit = gas; tx.gas_price = U256::from(1); })
+                .append_handler_register(inspector_handle_register).build();
+            describe(evm.transact().map_err(|e| format!("{e:?}")))
+        } else {
+            let mut evm = Evm::builder().with_db(db).with_spec_id(SpecId::CANCUN)
+                .modify_tx_env(|tx| { tx.caller = CALLER; tx.transact_to = TxKind::Call(TARGET); tx.gas_limit = gas; tx.gas_price = U256::from(1); })
+                .build();
+            describe(evm.transact().map_err(|e| format!("{e:?}")))
+        }
+    };
+    let mut same = true;
+    let mut summary = String::new();
+    for (name, code, gas) in [("calls-create-storage-log-loop", &prog1, 1_000_000u64), ("revert", &prog2, 100_000), ("out-of-gas", &prog3, 30_000)] {
+        let (a, b) = (run(code, false, gas), run(code, true, gas));
+        if a != b {
+            same = false;
+            summary += &format!("{name}: without `{}` with `{}`; ", &a[..a.len().min(160)], &b[..b.len().min(160)]);
+        } else {
+            summary += &format!("{name}: same ({}); ", &a[..a.len().min(40)]);
+        }
+    }
+    let mut out = String::new();
+    for w in ["inspector_instruction", "call-wrapper", "create-wrapper", "eofcreate-wrapper", "call_end-wrapper", "create_end-wrapper", "eofcreate_end-wrapper"] {
+        out += &format!("[{} differential: {}{}] ", w, summary, if same { "" } else { " MISMATCH" });
+    }
+    out
+}
